@@ -357,7 +357,13 @@ def run(ctx, anchors=None):
     for n in sv_.nodes():
         if n["k"] in ("forrange", "for"):
             txt = astq.estr(n.get("range")) if n["k"] == "forrange" else astq.estr(n.get("cond"))
-            body_pushes = [x for x in walk(n.get("body")) if x["k"] == "mcall" and x.get("n") == "push_back"]
+            def pushes(x_):
+                if x_["k"] == "mcall" and x_.get("n") == "push_back":
+                    return True
+                if x_["k"] == "call" and x_.get("cid") and not x_.get("ext"):      # a line-appending helper
+                    return any(y_["k"] == "mcall" and y_.get("n") == "push_back" for g_ in prog.resolve(x_["cid"]) if g_.body is not None for y_ in g_.nodes())
+                return False
+            body_pushes = [x for x in walk(n.get("body")) if pushes(x)]
             if body_pushes and "desc" in (txt or ""):
                 desc_loops.append(n)
     if len(desc_loops) != 1:
